@@ -31,10 +31,10 @@ def gaussSolve {N : ℕ} (A : Mat ℚ N) (b : Vec ℚ N) : Vec ℚ N :=
           if f = 0 then rows else rows.set! r ((rr.zip rpn).map fun ab => ab.1 - f * ab.2)) rows) rows0
   fun i => (rows.getD i.val #[]).getD n 0
 
-/-- time-step rule of the recording discretisation: `dt_i = cfl * w_i` for cells with `q_i ≥ 1/3` (a threshold that dyadic data never hit exactly: an exact tie is decided by round-off in the implementation),
+/-- time-step rule of the recording discretisation: `dt_i = cfl * w_i` for cells with `q_i ≥ 3337/10007` (a threshold with a large prime denominator that the rational trajectories - denominators 2^a 3^b 5^c from the tables - never hit exactly: an exact tie is decided by round-off in the implementation),
 `cfl * w_i / 2` otherwise (state dependent, but without division so that exact rationals stay short) -/
 def fakeDt (w : Array ℚ) (cfl : ℚ) {n : ℕ} (q : Vector ℚ n) : Array ℚ :=
-  Array.ofFn (n := n) fun i => if (1/3 : ℚ) ≤ q[i] then cfl * w.getD i.val 1 else cfl * w.getD i.val 1 / 2
+  Array.ofFn (n := n) fun i => if (3337/10007 : ℚ) ≤ q[i] then cfl * w.getD i.val 1 else cfl * w.getD i.val 1 / 2
 
 /-- hidden solver state: gear's memory -/
 abbrev Sol (n : ℕ) := Option (Vector ℚ n)
